@@ -370,3 +370,100 @@ Proof.
 Qed.
 
 End Compose.
+
+(* ------------------------------------------------------------------ 6. incomplete and failing runs
+   In ANY reachable executor state (prefix of a run, failing bodies, Stop) the set of started tasks is
+   closed under "earlier conflicting task", so the begin order extends — by the not yet started
+   positions in block order — to a conflict-respecting permutation; hence every started task has
+   exactly the outcome it has in sequential execution. *)
+
+Section Closed.
+Variables (c : E.cfg) (tr : list E.label) (s : E.state).
+Hypothesis Hc : EP.cfg_ok c.
+Hypothesis Hst : E.steps c E.init tr s.
+
+(* C08_order_code: a started task's earlier conflicting tasks have all started (and ended) *)
+Lemma trace_down_closed i j ti tj : (i < j)%nat ->
+  nth_error (E.c_ts c) i = Some ti -> nth_error (E.c_ts c) j = Some tj -> E.conflict ti tj = true ->
+  j ∈ begin_order (E.log s) -> i ∈ begin_order (E.log s).
+Proof.
+  intros Hij Hi Hj Hcf Hin. apply begin_order_in in Hin. apply begin_order_in.
+  apply in_split in Hin. destruct Hin as (l1 & l2 & Hlog).
+  destruct (C08.C08_order_code c tr s Hc Hst i j ti tj Hij Hi Hj Hcf l1 l2 Hlog) as (_ & l3 & l4 & Hl2 & Hbi).
+  rewrite Hlog, Hl2. apply in_or_app. right. right. apply in_or_app. right. right. exact Hbi.
+Qed.
+End Closed.
+
+Lemma par_exec_app r fm parent ts ptxs : forall l1 l2 st,
+  snd (par_exec r fm parent ts st ptxs (l1 ++ l2)) =
+  snd (par_exec r fm parent ts st ptxs l1) ++
+  snd (par_exec r fm parent ts (fst (par_exec r fm parent ts st ptxs l1)) ptxs l2).
+Proof.
+  induction l1 as [|i l1 IH]; intros l2 st; [reflexivity|]. cbn [app par_exec].
+  destruct (ptxs !! i) as [[[t sk] u]|]; [|apply IH].
+  destruct (run_tx r fm parent ts st t sk u) as [st' o]. specialize (IH l2 st').
+  destruct (par_exec r fm parent ts st' ptxs (l1 ++ l2)) as [sa osa].
+  destruct (par_exec r fm parent ts st' ptxs l1) as [sb osb]. cbn [fst snd] in *. rewrite IH. reflexivity.
+Qed.
+
+Lemma ni_respects_app ptxs : forall l1 l2,
+  ni_respects ptxs l1 -> ni_respects ptxs l2 ->
+  (forall i j, i ∈ l1 -> j ∈ l2 -> (j < i)%nat -> nonint_at ptxs i j) ->
+  ni_respects ptxs (l1 ++ l2).
+Proof.
+  induction l1 as [|x l1 IH]; intros l2 H1 H2 Hx; [exact H2|]. cbn [app ni_respects] in *.
+  destruct H1 as [Ha Hb]. split.
+  - intros j Hj Hlt. apply elem_of_app in Hj. destruct Hj as [Hj|Hj]; [apply Ha; assumption|].
+    apply Hx; [left | exact Hj | exact Hlt].
+  - apply IH; [exact Hb | exact H2|]. intros i j Hi Hj. apply Hx; [right; exact Hi | exact Hj].
+Qed.
+
+Lemma ni_respects_filter_seq ptxs (P : nat -> Prop) `{forall x, Decision (P x)} : forall m k,
+  ni_respects ptxs (filter P (seq k m)).
+Proof.
+  induction m as [|m IH]; intros k; [exact I|]. cbn [seq]. rewrite filter_cons.
+  destruct (decide (P k)); [|apply IH]. cbn [ni_respects]. split; [|apply IH].
+  intros j Hj Hlt. apply elem_of_list_filter in Hj. destruct Hj as [_ Hj]. apply elem_of_seq in Hj. lia.
+Qed.
+
+Section Partial.
+Context (enc : key -> N) `{Henc : !Inj (=) (=) enc}.
+
+Lemma trace_started_sequential r fm parent ts st (ptxs : list ptx) c tr s :
+  E.c_ts c = tasks_of enc ptxs -> EP.cfg_ok c -> E.steps c E.init tr s ->
+  forall i o, (i, o) ∈ snd (par_exec r fm parent ts st ptxs (begin_order (E.log s))) ->
+              (i, o) ∈ snd (par_exec r fm parent ts st ptxs (seq 0 (length ptxs))).
+Proof.
+  intros Hts Hc Hst i o Hin.
+  set (sigma := begin_order (E.log s)) in *.
+  set (rest := filter (fun x => x ∉ sigma) (seq 0 (length ptxs))).
+  assert (Hnd : NoDup sigma) by exact (trace_begins_nodup c tr s Hc Hst).
+  assert (Hlt : forall x, x ∈ sigma -> (x < length ptxs)%nat).
+  { intros x Hx. rewrite <- (tasks_of_length enc ptxs), <- Hts.
+    apply (trace_begun_lt c tr s Hc Hst), begin_order_in, Hx. }
+  assert (Hperm : sigma ++ rest ≡ₚ seq 0 (length ptxs)).
+  { apply NoDup_Permutation; [|apply NoDup_seq|].
+    - apply NoDup_app. split; [exact Hnd|]. split; [|apply NoDup_filter, NoDup_seq].
+      intros x Hx Hr. apply elem_of_list_filter in Hr. tauto.
+    - intros x. rewrite elem_of_app. unfold rest. rewrite elem_of_list_filter, elem_of_seq. split.
+      + intros [Hx|[_ Hx]]; [apply Hlt in Hx; lia | exact Hx].
+      + intros Hx. destruct (decide (x ∈ sigma)); [left; assumption | right; split; assumption]. }
+  assert (Hni : ni_respects ptxs (sigma ++ rest)).
+  { apply ni_respects_app.
+    - apply respects_ni, respects_exec. exact (trace_respects enc ptxs c tr s Hts Hc Hst).
+    - apply ni_respects_filter_seq; apply _.
+    - intros x y Hx Hy Hyx. apply conflict_at_nonint.
+      destruct (conflict_at conflict ptxs x y) eqn:Ecf; [exfalso|reflexivity].
+      apply elem_of_list_filter in Hy. destruct Hy as [Hy _]. apply Hy.
+      rewrite conflict_at_sym in Ecf. unfold conflict_at in Ecf.
+      destruct (ptxs !! y) as [py|] eqn:Ey; [|discriminate Ecf].
+      destruct (ptxs !! x) as [px|] eqn:Ex; [|discriminate Ecf].
+      apply conflict_exec_conflict in Ecf. rewrite <- (conflict_enc enc) in Ecf.
+      apply (trace_down_closed c tr s Hc Hst y x (task_of enc (ptx_keys py)) (task_of enc (ptx_keys px)) Hyx); [rewrite Hts; apply tasks_of_nth, Ey
+        | rewrite Hts; apply tasks_of_nth, Ex | exact Ecf | exact Hx]. }
+  pose proof (sched_eq_isort r fm parent ts ptxs _ Hni st) as [_ Hos].
+  rewrite (isort_seq _ _ Hperm) in Hos. rewrite <- Hos, par_exec_app.
+  apply elem_of_app. left. exact Hin.
+Qed.
+
+End Partial.
